@@ -189,12 +189,14 @@ theorem assemble_ne (ext : Ext) (l : List SplitPacket) : assemble ext l ≠ .cra
   · simp
   · split
     · simp
-    · unfold getPayload
-      split
-      · simp
-      · split
+    · split
+      · unfold getPayload
+        split
         · simp
-        · simp only; split <;> simp
+        · split
+          · simp
+          · simp only; split <;> simp
+      · simp
 
 theorem qsafe_recv (s : Sock) : QSafe s (EvOk s) (recv s (some PACKET_SIZE)) :=
   QSafe.recv s _ _ fun _ => ⟨rfl, rfl⟩
